@@ -492,7 +492,7 @@ def gen_kwargs(rng, ins):
             ("check_criteria", ["any", "all"]),
             ("weighted_kl", bools), ("draw_constant", bools), ("train_final_flow", bools), ("bootstrap", bools),
             ("strict_threshold", bools), ("draw_iid_live", bools),
-            ("reparameterisation", ["logit", None, "gaussian_cdf"]),
+            ("reparameterisation", ["logit", None]),
             ("reset_flow", [True, False, 2, np.int64(3)]),
             ("clip", bools), ("plot_training", bools),
         ]
